@@ -22,6 +22,14 @@ def configs():
   P['partial'] = lambda: fdl.Partial(pool.fc, 'p', q={'x': [1, 2]})
   P['bytes-negative'] = lambda: fdl.Config(pool.fb, -5, y=b'by')
   P['numeric-string-keys'] = lambda: fdl.Config(pool.fc, {'3': fdl.Config(pool.fb, 1), 3: fdl.Config(pool.fb, 2), '10': fdl.Config(pool.fb, 3)}, q={'007': 'a', 7: 'b'})
+  def shared_subconfig():
+    sh = fdl.Config(pool.fb, 1, y='s')
+    return fdl.Config(pool.fc, sh, q=sh, r={'k': [sh, 7]})
+  P['shared-sub-config'] = shared_subconfig       # every path to the shared node lists its leaves
+  def shared_container():
+    l = [1, {'z': 2}]
+    return fdl.Config(pool.fc, l, q=fdl.Config(pool.fb, l), r=[l])
+  P['shared-container'] = shared_container
   P['tuple-holder'] = lambda: fdl.Config(pool.fc, 'p', q=(1, 2))   # leaves inside tuples: not override targets
   return P
 
